@@ -52,11 +52,27 @@ def check(case):
     mgr, ev = manager("detection", targets)
     frames_gt = []
     for fi, f in enumerate(case["frames"]):
-        frames_gt.append(FrameGroundTruth(fi * 100000, str(fi), [build.obj3d(d) for d in f["gt"]], transforms=build.ego_matrix(None)))
+        frames_gt.append(FrameGroundTruth(fi * 100000, str(fi), [build.obj3d(d) for d in f["gt"]], transforms=build.ego_matrix(f.get("ego"))))
     mgr.ground_truth_frames = frames_gt
     snapshot = [(f.objects, list(f.objects)) for f in frames_gt]
+    from perception_eval.common.schema import FrameID
+    pose = lambda f: f.transforms[(FrameID.BASE_LINK, FrameID.MAP)].matrix.copy().tolist()
+    poses = [(pose(f), f.unix_time, [(tuple(o.state.position), tuple(o.state.orientation.elements), o.unix_time) for o in f.objects]) for f in frames_gt]
     first = {}
     for step, (fi, half) in enumerate(case["calls"]):
+        if case.get("lookups") and len(frames_gt) > 1:
+            # ground-truth lookups between the evaluations (also at a stamp between two key frames, with interpolation): the loaded frames stay as they are
+            for (lt, interp) in case["lookups"][step % len(case["lookups"])]:
+                got1 = mgr.get_ground_truth_now_frame(lt, 60000, interpolate_ground_truth=interp)
+                got2 = mgr.get_ground_truth_now_frame(lt, 60000, interpolate_ground_truth=interp)
+                d1 = None if got1 is None else (got1.unix_time, sorted((o.uuid, tuple(round(v, 9) for v in o.state.position)) for o in got1.objects), pose(got1))
+                d2 = None if got2 is None else (got2.unix_time, sorted((o.uuid, tuple(round(v, 9) for v in o.state.position)) for o in got2.objects), pose(got2))
+                if d1 != d2:
+                    return f"the same ground-truth lookup (stamp {lt}, interpolate={interp}) gave two different frames"
+            now = [(pose(f), f.unix_time, [(tuple(o.state.position), tuple(o.state.orientation.elements), o.unix_time) for o in f.objects]) for f in frames_gt]
+            if now != poses:
+                k = next(i for i, (a, b) in enumerate(zip(now, poses)) if a != b)
+                return f"a ground-truth lookup before call {step} changed the loaded frame {k} (ego pose, stamp or an object's pose)"
         est = [build.obj3d(d) for d in case["frames"][fi]["est"]]
         est0 = list(est)
         cof, pfc = crit_cfg(ev, targets, half)
@@ -107,10 +123,12 @@ def gen(rnd):
             if est:
                 e = rnd.choice(est)
                 g.update(label=e["label"], x=e["x"] + 0.3, y=e["y"] + 0.01 * gt.index(g))
-        fs.append(dict(est=est, gt=gt))
+        fs.append(dict(est=est, gt=gt, ego=dict(x=1.5 * fi, y=0.0, yaw=0.0)))
     calls = [(rnd.randrange(len(fs)), rnd.choice([2.0, 5.0, 50.0])) for _ in range(rnd.randint(2, 5))]
     calls.append(calls[0])
-    return dict(frames=fs, calls=calls)
+    stamps = [0, 50000, 100000, 140000, 150000, 260000]
+    lookups = [[(rnd.choice(stamps), rnd.random() < 0.7) for _ in range(rnd.randint(0, 2))] for _ in range(3)]
+    return dict(frames=fs, calls=calls, lookups=lookups)
 
 
 def search(item, seed):
